@@ -46,8 +46,9 @@ RULE = ("one case = one pair (t1, t2) under one option set and one list mode; fa
         "distinct = distinct (family, options, mode, canonical t1, canonical t2)")
 TRUSTED = [
     "only the options ignore_string_case, ignore_string_type_changes, ignore_numeric_type_changes, significant_digits (notation 'f'), "
-    "math_epsilon, exclude_types and ignore_private_variables are inside the Coq model; ignore_nan_inequality, use_enum_value, "
-    "truncate_datetime, default_timezone, number_format_notation='e', named time zones are exercised by the direct oracle only (no theorem)",
+    "math_epsilon, exclude_types and ignore_private_variables are inside the structural Coq model; truncate_datetime and default_timezone "
+    "(fixed-offset zones) have an ATOM-LEVEL model (datetime_normalize + the comparison of _diff_datetime) with atom-level theorems only; "
+    "ignore_nan_inequality, use_enum_value, number_format_notation='e', named time zones are exercised by the direct oracle only (no theorem)",
     "floats of the structural model are half-integers; number_to_string / math.isclose are modelled on dyadic rationals m/2^e in exact "
     "arithmetic (the double rounding of rel_tol*x inside math.isclose and of round() followed by '%.df' are not modelled: they coincide "
     "with exact arithmetic on the generated domain |x| < 2^20, <= 12 fractional bits, <= 6 digits)",
@@ -500,7 +501,7 @@ def normalise(rng, v, sp, rich=False, p=0.5, log=None, top=True):
     if isinstance(v, (set, frozenset)):
         items = []
         marks = []
-        for a in v:
+        for a in sorted(v, key=lit):      # nan hashes by id: fix the order
             b, asp = alt_atom(rng, a, sp, "set", rich, p * 0.6)
             items.append(b)
             marks.append(asp)
@@ -540,7 +541,7 @@ def alias_copy(rng, v, in_list=False):
             rng.shuffle(items)
         return dict(items)
     if isinstance(v, (set, frozenset)):
-        items = [swap(a) for a in v]
+        items = [swap(a) for a in sorted(v, key=lit)]
         rng.shuffle(items)
         return set(items) if isinstance(v, set) else frozenset(items)
     if isinstance(v, datetime.datetime) and v.tzinfo is not None and rng.random() < 0.6:
@@ -753,7 +754,7 @@ def coq_ops2(tbl):
                     for xs, ys, ops in tbl)
 
 
-HDR = ("From DD Require Import Base.PyStr Base.Value Diff.Tree Diff.DiffModel Diff.DiffShow Options.OptModel Options.OptShow.\n"
+HDR = ("From DD Require Import Base.PyStr Base.Value Diff.Tree Diff.DiffModel Diff.DiffShow Options.OptModel Options.OptDtModel Options.OptShow.\n"
        "Local Open Scope Z_scope.")
 
 
@@ -997,7 +998,40 @@ def atom_level(ctx, n):
         exp = DeepHash(a, hasher=lambda s: s, **kw)[a]
         cases.append(("hatom_sx %s %s" % (coq_opts(sp), V.atom_to_coq(a)), exp, {"hash_text": [repr(a), name]}))
         ctx.seen(("ha", name, repr(a)))
-    ctx.coq_cases("c11_atoms", HDR, cases, shard=400, label="atom_level(number_to_string,isclose,hash text)")
+    # datetimes: helper.datetime_normalize + the comparison of _diff_datetime against dt_instant / dt_changed
+    from deepdiff.helper import datetime_normalize
+    epoch_utc = datetime.datetime(1970, 1, 1, tzinfo=datetime.timezone.utc)
+    epoch = datetime.datetime(1970, 1, 1)
+    one = datetime.timedelta(microseconds=1)
+    units = {None: 0, "second": 1, "minute": 2, "hour": 3, "day": 4}
+
+    def wall(d):
+        return (d.replace(tzinfo=None) - epoch) // one
+
+    def off(d):
+        return "None" if d.tzinfo is None else "(Some %s)" % coq_Z(int(d.utcoffset().total_seconds() // 60))
+    for _ in range(n):
+        tr = rng.choice([None, "second", "minute", "hour", "day"])
+        dtz = rng.choice([0, 120, -300, 330, 345, -210])
+        tz = datetime.timezone(datetime.timedelta(minutes=dtz))
+        d1 = gen_dt(rng)
+        r = rng.random()
+        if r < 0.3:
+            d2 = gen_dt(rng)
+        elif r < 0.6 and d1.tzinfo is not None:
+            d2 = d1.astimezone(datetime.timezone(datetime.timedelta(minutes=rng.choice([0, 60, -480, 345, 330]))))
+        elif r < 0.8:
+            d2 = d1.replace(second=rng.randint(0, 59), microsecond=rng.choice([0, 1, 999999]))
+        else:
+            d2 = d1.replace(tzinfo=tz) if d1.tzinfo is None else d1.replace(minute=rng.randint(0, 59))
+        n1 = datetime_normalize(tr, d1, default_timezone=tz)
+        n2 = datetime_normalize(tr, d2, default_timezone=tz)
+        cases.append(("dt_instant_sx %d %s %s %s" % (units[tr], coq_Z(dtz), coq_Z(wall(d1)), off(d1)), (n1 - epoch_utc) // one,
+                      {"datetime_normalize": [lit(d1), tr, dtz]}))
+        cases.append(("dt_changed_sx %d %s %s %s %s %s" % (units[tr], coq_Z(dtz), coq_Z(wall(d1)), off(d1), coq_Z(wall(d2)), off(d2)),
+                      bool(n1 != n2), {"_diff_datetime": [lit(d1), lit(d2), tr, dtz]}))
+        ctx.seen(("dt", lit(d1), lit(d2), tr, dtz))
+    ctx.coq_cases("c11_atoms", HDR, cases, shard=400, label="atom_level(number_to_string,isclose,hash text,datetime_normalize)")
 
 
 # --------------------------------------------------------------------------
@@ -1059,6 +1093,69 @@ def has_bytes_key(*vals):
     return any(isinstance(k, bytes) for v in vals for k in walk_keys(v, []))
 
 
+def _cands(a, b):
+    """smaller pairs that stay in the same family: aligned items dropped from both sides, or an aligned pair of children"""
+    if type(a) is type(b) and isinstance(a, (list, tuple)) and len(a) == len(b):
+        for i in range(len(a)):
+            yield a[i], b[i]
+        for i in range(len(a)):
+            yield type(a)(list(a[:i]) + list(a[i + 1:])), type(b)(list(b[:i]) + list(b[i + 1:]))
+    elif isinstance(a, dict) and isinstance(b, dict):
+        ia, ib = list(a.items()), list(b.items())
+        if len(ia) == len(ib):
+            for i in range(len(ia)):
+                yield ia[i][1], ib[i][1]
+            for i in range(len(ia)):
+                yield dict(ia[:i] + ia[i + 1:]), dict(ib[:i] + ib[i + 1:])
+            for i in range(len(ia)):      # keep the keys, shrink below
+                for x, y in _cands(ia[i][1], ib[i][1]):
+                    yield dict(ia[:i] + [(ia[i][0], x)] + ia[i + 1:]), dict(ib[:i] + [(ib[i][0], y)] + ib[i + 1:])
+        else:
+            for k in list(a):
+                if k.__class__ is str and k.startswith("__"):
+                    yield {q: v for q, v in a.items() if q != k}, b
+            for k in list(b):
+                if k.__class__ is str and k.startswith("__"):
+                    yield a, {q: v for q, v in b.items() if q != k}
+    elif type(a) is type(b) and isinstance(a, (set, frozenset)):
+        for x in sorted(a, key=lit):
+            if x in b:
+                yield type(a)(q for q in a if q is not x), type(b)(q for q in b if not (q == x and type(q) is type(x)))
+    if type(a) is type(b) and isinstance(a, (list, tuple)) and len(a) == len(b):
+        for i in range(len(a)):
+            for x, y in _cands(a[i], b[i]):
+                yield type(a)(list(a[:i]) + [x] + list(a[i + 1:])), type(b)(list(b[:i]) + [y] + list(b[i + 1:]))
+
+
+def shrink(job, clause, budget=300):
+    """greedy delta debugging of a failing pair (same clause keeps failing)"""
+    a, b, sp, zip_, fam, name, log = job
+
+    def fails(x, y):
+        try:
+            fs, _nt, _st = oracle_case((x, y, sp, zip_, fam, name, log))
+        except Exception:  # noqa
+            return None
+        for f in fs:
+            if f["clause"] == clause:
+                return f
+        return None
+    best = fails(a, b)
+    n = 0
+    progress = True
+    while progress and n < budget:
+        progress = False
+        for x, y in _cands(a, b):
+            n += 1
+            if n >= budget:
+                break
+            f = fails(x, y)
+            if f is not None:
+                a, b, best, progress = x, y, f, True
+                break
+    return best
+
+
 def report_oracle(ctx, results, jobs):
     for (fails, nontrivial, st), job in zip(results, jobs):
         a, b, sp, zip_, fam, name, log = job
@@ -1076,7 +1173,13 @@ def report_oracle(ctx, results, jobs):
         for asp, pos in set(log):
             ctx.count("altered:%s@%s" % (asp, pos))
         for f in fails:
-            ctx.fail(f, "C11 clause %s (%s) under %s: %s" % (f["clause"], f["family"], f["options"], f["what"]))
+            if ctx.fail(f, "C11 clause %s (%s) under %s: %s" % (f["clause"], f["family"], f["options"], f["what"])) == "new" \
+                    and ctx.counts.get("shrunk", 0) < 12:
+                ctx.count("shrunk")
+                g = shrink(job, f["clause"])
+                if g is not None and len(g["t1"]) + len(g["t2"]) < len(f["t1"]) + len(f["t2"]):
+                    g["shrunk_from"] = {"t1": f["t1"][:400], "t2": f["t2"][:400]}
+                    ctx.fail(g, "C11 clause %s (%s) under %s: %s [shrunk]" % (g["clause"], g["family"], g["options"], g["what"]))
 
 
 # --------------------------------------------------------------------------
